@@ -177,6 +177,15 @@ impl<Key, Value> Store<Key, Value>
     }
 }
 
+#[cfg(feature = "verif")]
+impl<Key, Value> Store<Key, Value>
+    where Key: Hash + Eq + Clone, {
+    /// (key, key id, expiry, soft deleted) of every physically present entry.
+    pub(crate) fn verif_entries(&self) -> Vec<(Key, KeyId, Option<ExpireAfter>, bool)> {
+        self.store.iter().map(|pair| (pair.key().clone(), pair.value().key_id(), pair.value().expire_after(), pair.value().is_soft_deleted)).collect()
+    }
+}
+
 impl<Key, Value> Store<Key, Value>
     where Key: Hash + Eq,
           Value: Clone, {
